@@ -218,6 +218,39 @@ func runC07(c *Ctx) {
 			}
 		}
 		c.check(okChain, "C07.classify", um, "cutField(Trim(data up to '#', spaces))", nil, "comment removal, then trimming, then the first field")
+		// the comment is cut exactly when a '#' exists (index >= 0, also at column 0)
+		if okChain {
+			okCut, why := false, "the text handed to Trim is never the part in front of '#'"
+			if phi, isPhi := trim.Call.Args[0].(*ssa.Phi); isPhi {
+				for i, e := range phi.Edges {
+					sl, isSl := e.(*ssa.Slice)
+					if !isSl {
+						continue
+					}
+					idx := sl.High
+					cond, truth, found := edgeCondition(phi.Block().Preds[i], phi.Block())
+					if !found {
+						// the slice is computed in a block of its own: use that block's guard
+						for _, g := range core.Guards(phi.Block().Preds[i]) {
+							cond, truth, found = g.Cond, g.Truth, true
+						}
+					}
+					if !found {
+						why = "cannot find the condition under which the comment is cut"
+						continue
+					}
+					okCut = true
+					for _, iv := range []int64{-1, 0, 1, 5} {
+						v, ok := evalSmall(cond, map[ssa.Value]int64{idx: iv}, 0)
+						if !ok || (v != 0) == truth != (iv >= 0) {
+							okCut = false
+							why = sprintf("for a '#' at index %d the comment is cut: %v", iv, ok && (v != 0) == truth)
+						}
+					}
+				}
+			}
+			c.check(okCut, "C07.classify", um, "the comment is removed iff bytes.IndexByte(data, '#') >= 0", trim, why)
+		}
 		if cf != nil {
 			var field, tail *ssa.Extract
 			for _, r := range core.Refs(cf) {
@@ -325,6 +358,31 @@ func runC07(c *Ctx) {
 									if b, isB := e.(*ssa.BinOp); isB && b.X == ssa.Value(phi) {
 										good = guardedNilErr(b, v)
 									}
+								}
+								// the count starts at zero
+								for i, e := range phi.Edges {
+									if !phi.Block().Dominates(phi.Block().Preds[i]) {
+										if k0, isK := core.ConstInt(e); !isK || k0 != 0 {
+											good = false
+										}
+									}
+								}
+								// and the loop goes on exactly while the field just cut is non-empty
+								if hif, isIf := phi.Block().Instrs[len(phi.Block().Instrs)-1].(*ssa.If); isIf {
+									cond, truth := core.StripNot(hif.Cond, true)
+									b, isB := cond.(*ssa.BinOp)
+									okLoop := false
+									if isB && (b.Op == token.NEQ || b.Op == token.EQL) {
+										if str, isK := core.ConstString(b.Y); isK && str == "" && cutChainRoot(b.X, cutS, 0) == ssa.Value(hosts) {
+											inBody := core.LoopBody(phi.Block())[hif.Block().Succs[0]]
+											okLoop = (b.Op == token.NEQ) == (truth == inBody)
+										}
+									}
+									if !okLoop {
+										good = false
+									}
+								} else {
+									good = false
 								}
 							}
 						}
